@@ -1404,6 +1404,17 @@ func (w *qWorld) opRestart(op Op) {
 			w.readyAtExit[co.ck] = true
 		}
 	}
+	// somebody who connected and never said anything (a port probe, a health check, a stalled client): the
+	// harness does not close this connection - the daemon has to get past it on its own
+	var silent net.Conn
+	if op.C%2 == 1 {
+		if c, err := rc.Net.DialFrom(nil, w.tcpAddr); err == nil {
+			silent = c
+			c.Write([]byte("  V"[:int(op.B)%4]))
+			synctest.Wait()
+			rc.Fault("silent_connection_at_exit")
+		}
+	}
 	pumpErr0 := rc.probes["log_messagepump_error"]
 	exitDone := make(chan struct{})
 	go func() { n.Exit(); close(exitDone) }()
@@ -1457,6 +1468,15 @@ func (w *qWorld) opRestart(op Op) {
 			w.keepAlivePub(keep, keepRd, lateTopic, op.Uid*16+15)
 		}
 		keep.Close()
+	}
+	if silent != nil {
+		select {
+		case <-exitDone:
+		case <-time.After(5 * time.Minute):
+			w.violate("C05", "exit-hangs", "the graceful exit has not finished after 5 minutes while a connection that never sent the protocol magic stays open")
+			w.violate("C01", "exit-hangs", "the graceful exit has not finished after 5 minutes while a connection that never sent the protocol magic stays open")
+		}
+		silent.Close()
 	}
 	<-exitDone
 	w.n = nil
